@@ -110,7 +110,13 @@ pub fn read_facts_and_rules(file_name: &str) -> Result<Vec<String>, String> {
                     if line.len() > 0 {
                         match check_last_char(&line, line_number) {
                             Some(msg) => { return Err(msg); },
-                            None => { long_line += &line; },
+                            None => {
+                                // A rule which continues from the previous
+                                // line is joined with a space: `$X =` `5.`
+                                if long_line.len() > 0 &&
+                                   !long_line.ends_with('.') { long_line += " "; }
+                                long_line += &line;
+                            },
                         }
                         rules.push(line);
                     }
